@@ -60,6 +60,7 @@ type World struct {
 	Sigs      map[*FuncContract]*sigInfo
 	specFns   map[string]*ssa.Function
 	TrustedPkgDir string
+	FileOfPkg     map[string]*ContractFile
 }
 
 func parseModEntry(m string) *ModSpec {
@@ -370,6 +371,10 @@ func (w *World) GenerateSpecs() error {
 					key = key[:i]
 				}
 				fd := funcs[key]
+				if fd == nil && strings.HasPrefix(key, "init") {
+					// the package initialiser synthesised by go/ssa (global variable initialisers)
+					fd = &ast.FuncDecl{Name: ast.NewIdent("init"), Type: &ast.FuncType{Params: &ast.FieldList{}}}
+				}
 				if fd == nil {
 					w.Unresolved = append(w.Unresolved, fmt.Sprintf("%s:%d func %s", cf.Path, fc.Line, fc.Key))
 					continue
@@ -437,6 +442,16 @@ func (w *World) GenerateSpecs() error {
 					}
 				}
 			}
+		}
+		for i, c := range cf.PkgInvs {
+			ctx.params = map[string]bool{}
+			e, err := ctx.conv(c.Expr)
+			if err != nil {
+				return fmt.Errorf("%s:%d: %v", cf.Path, c.Line, err)
+			}
+			c.SpecFn = fmt.Sprintf("spec__pkginv_%d", i+1)
+			fmt.Fprintf(&body, "func %s() bool {\n\treturn %s\n}\n\n", c.SpecFn, e)
+			w.SpecInfo[c.SpecFn] = &SpecFnInfo{Name: c.SpecFn}
 		}
 		// closed obligations
 		for i, c := range append(append([]*Clause{}, cf.Consts...), cf.Lemmas...) {
@@ -538,6 +553,7 @@ func LoadWorld(repo string, patterns []string) (*World, error) {
 				merged.Ghosts = append(merged.Ghosts, cf.Ghosts...)
 				merged.Preds = append(merged.Preds, cf.Preds...)
 				merged.GoDecls = append(merged.GoDecls, cf.GoDecls...)
+				merged.PkgInvs = append(merged.PkgInvs, cf.PkgInvs...)
 				merged.Funcs = append(merged.Funcs, cf.Funcs...)
 				merged.Consts = append(merged.Consts, cf.Consts...)
 				merged.Lemmas = append(merged.Lemmas, cf.Lemmas...)
@@ -621,6 +637,10 @@ func LoadWorld(repo string, patterns []string) (*World, error) {
 			continue
 		}
 		w.PkgOfFile[cf] = p.PkgPath
+		if w.FileOfPkg == nil {
+			w.FileOfPkg = map[string]*ContractFile{}
+		}
+		w.FileOfPkg[p.PkgPath] = cf
 		sp := w.SsaPkgs[p.PkgPath]
 		for _, fc := range cf.Funcs {
 			if fc.Extern || fc.Iface {
